@@ -133,6 +133,23 @@ var recvEffects = map[string]recvEffect{
 	"InMemoryRepository.heap.Len":       {"GoMem.heapLen", "pure", false},
 	"InMemoryRepository.heap.Peek":      {"GoMem.heapPeek", "pure", false},
 	"InMemoryRepository.orderedMap.Pairs": {"GoMem.omapPairs", "pure", false},
+	// the observable wrapper (repository/repository.go): the core repository and the hook timer behind interfaces
+	"Repository.Repository.AddTask":          {"GoObs.coreAddTask", "pair", false},
+	"Repository.Repository.UpdateById":       {"GoObs.coreUpdateById", "pair", false},
+	"Repository.Repository.Cancel":           {"GoObs.coreCancel", "pair", false},
+	"Repository.Repository.MarkAsDispatched": {"GoObs.coreMarkAsDispatched", "pair", false},
+	"Repository.Repository.MarkAsDone":       {"GoObs.coreMarkAsDone", "pair", false},
+	"Repository.Repository.GetById":          {"GoObs.coreGetById", "pure", false},
+	"Repository.Repository.GetNext":          {"GoObs.coreGetNext", "pure", false},
+	"Repository.Repository.Find":             {"GoObs.coreFind", "pure", false},
+	"Repository.HookTimer.AddTask":           {"GoObs.hookAddTask", "state", false},
+	"Repository.HookTimer.UpdateById":        {"GoObs.hookUpdateById", "state", false},
+	"Repository.HookTimer.Cancel":            {"GoObs.hookCancel", "state", false},
+	"Repository.HookTimer.MarkAsDispatched":  {"GoObs.hookMarkAsDispatched", "state", false},
+	"Repository.HookTimer.StartTimer":        {"GoObs.hookStartTimer", "state", false},
+	"Repository.HookTimer.StopTimer":         {"GoObs.hookStopTimer", "state", false},
+	"Repository.HookTimer.LastTimerUpdateError": {"GoObs.hookLastTimerUpdateError", "pure", false},
+	"Repository.HookTimer.NextScheduled":     {"GoObs.hookNextScheduled", "pure", false},
 	"InMemoryRepository.orderedMap.Len":   {"GoMem.omapLen", "pure", false},
 }
 
@@ -756,6 +773,16 @@ func (t *translator) trStmts(stmts []ast.Stmt, k *cont, d int) string {
 	}
 	switch x := s.(type) {
 	case *ast.ReturnStmt:
+		if len(x.Results) == 1 {
+			if rc, key, ok := t.recvFieldKey(x.Results[0]); ok && recvEffects[key].kind == "pair" && t.recvMut {
+				// return recv.f.M(args): the call's (receiver', results…) IS what the method returns
+				v := "(" + recvEffects[key].lean + " " + leanIdent(t.recv) + t.trArgs(rc.Args) + ")"
+				if inLoop {
+					v = "(some " + v + ")"
+				}
+				return ind(d) + v
+			}
+		}
 		var rs []string
 		for _, r := range x.Results {
 			rs = append(rs, t.trExpr(r))
@@ -1146,6 +1173,29 @@ func (t *translator) trSimple(s ast.Stmt, d int) string {
 			if _, key, ok := t.recvFieldKey(x.Rhs[0]); ok && recvEffects[key].ref {
 				if id, ok := x.Lhs[0].(*ast.Ident); ok {
 					t.refVars[id.Name] = true
+				}
+			}
+			if rc, key, ok := t.recvFieldKey(x.Rhs[0]); ok && recvEffects[key].kind == "pair" {
+				r := leanIdent(t.recv)
+				names := []string{r}
+				allId := true
+				for i, l := range x.Lhs {
+					id, isId := l.(*ast.Ident)
+					if !isId {
+						allId = false
+						break
+					}
+					n := id.Name
+					if n == "_" {
+						n = fmt.Sprintf("_r%d", i)
+					}
+					if x.Tok == token.DEFINE {
+						t.locals[id.Name] = true
+					}
+					names = append(names, leanIdent(n))
+				}
+				if allId {
+					return ind(d) + "let (" + strings.Join(names, ", ") + ") := (" + recvEffects[key].lean + " " + r + t.trArgs(rc.Args) + ")\n"
 				}
 			}
 			// w := pkg.F(args, &recv.field): the receiver is threaded
@@ -1780,6 +1830,20 @@ func init() {
 			it(f, "func", "InMemoryRepository.Find"),
 			it("repository/inmemory/io.go", "type", "KeyValue"),
 			it("repository/inmemory/io.go", "func", "InMemoryRepository.Save", "InMemoryRepository.Load"),
+		),
+	})
+}
+
+func init() {
+	f := "repository/repository.go"
+	glUnits = append(glUnits, glUnit{
+		out: "Gk/Gen/Wrapper.lean", ns: "Wrapper", pre: []string{"Gk.GenGlueObs"},
+		items: cat(
+			// the two fields are interfaces (core repository, hook timer): the struct is the glue type
+			[]glItem{{kind: "lean", name: "abbrev Repository := Gk.GoObs"}},
+			it(f, "func", "Repository.AddTask", "Repository.GetById", "Repository.UpdateById", "Repository.Cancel",
+				"Repository.MarkAsDispatched", "Repository.MarkAsDone", "Repository.Find", "Repository.GetNext",
+				"Repository.LastTimerUpdateError", "Repository.StartTimer", "Repository.StopTimer", "Repository.NextScheduled"),
 		),
 	})
 }
